@@ -136,7 +136,7 @@ BinLayer(fam, S1, S2) ==
                               l \in BOOLEAN, t \in BOOLEAN}
 LeavesOf(fam) ==
   CASE fam = "peg" -> {J("a"), J("b"), JJ("a", "b"), <<"any">>, <<"oneof", <<"a", "b">>>>, <<"noneof", <<"a">>>>,
-                       <<"sel", <<"a">>>>, <<"end">>, <<"empty">>, <<"cust", 1, TRUE>>, <<"cust", 1, FALSE>>}
+                       <<"sel", <<"a">>>>, <<"end">>, <<"empty">>, <<"cust", 1, TRUE>>, <<"cust", 1, FALSE>>, <<"ext", 1, TRUE>>, <<"ext", 2, FALSE>>}
     [] fam = "emit" -> {J("a"), J("b"), <<"cust", 1, FALSE>>,
                         <<"validate", <<"any">>, "1", "F">>,        \* consumes a token and emits
                         <<"validate", <<"empty">>, "0", "F">>}      \* emits without consuming
